@@ -204,6 +204,8 @@ fn feed_key_importers(sink: &mut Sink, input: &[u8]) {
     feed(sink, "PublicKey::from_ecdsa", input, |b| PublicKey::from_ecdsa(b.to_vec()).is_ok());
 }
 
+static HANG_REPORTED: std::sync::atomic::AtomicBool = std::sync::atomic::AtomicBool::new(false);
+
 /// a verification run over a link directory seeded with hostile files
 fn hostile_dir_case(sink: &mut Sink, r: &mut Rng, pool: &[KeyInfo], forced: Option<&str>) {
     let mut g = e2e::Gen { r, pool, insp_counter: 0, force_delegate: false, multi_party: false, co_delegate: false, now: e2e::base_now(), reuse_keys: vec![], inner_insp_always: false };
@@ -279,14 +281,33 @@ fn hostile_dir_case(sink: &mut Sink, r: &mut Rng, pool: &[KeyInfo], forced: Opti
     std::fs::create_dir_all(&cwd).unwrap();
     let old = std::env::current_dir().unwrap();
     std::env::set_current_dir(&cwd).unwrap();
-    let res = guarded(std::panic::AssertUnwindSafe(|| {
-        let block: Metablock = serde_json::from_str(&text).unwrap();
-        in_toto::verifylib::in_toto_verify(&block, keys, &links_str, None).is_ok()
-    }));
+    let now = s.now;
+    let text2 = text.clone();
+    let came_back = crate::proto::with_deadline(60, move || {
+        hooks::set_now(Some(now));
+        let r = guarded(std::panic::AssertUnwindSafe(|| {
+            let block: Metablock = serde_json::from_str(&text2).unwrap();
+            in_toto::verifylib::in_toto_verify(&block, keys, &links_str, None).is_ok()
+        }));
+        hooks::set_now(None);
+        r
+    });
     std::env::set_current_dir(&old).unwrap();
     hooks::set_now(None);
+    let replay = format!("hostile-dir seed-derived; layout {}", hex(text.as_bytes()));
+    let res = match came_back {
+        Some(r) => r,
+        None => {
+            let first = !HANG_REPORTED.swap(true, std::sync::atomic::Ordering::SeqCst);
+            sink.stat("hostile-dir/HUNG");
+            if first {
+                sink.oracle(false, "in_toto_verify did not come back within 60 seconds (it must terminate on every link directory)", &replay);
+            }
+            return;
+        }
+    };
     sink.stat(&format!("hostile-dir/{}", match res { Err(()) => "PANIC", Ok(true) => "ok", Ok(false) => "err" }));
-    sink.oracle(res.is_ok(), "in_toto_verify panicked on a link directory with hostile files", &format!("hostile-dir seed-derived; layout {}", hex(text.as_bytes())));
+    sink.oracle(res.is_ok(), "in_toto_verify panicked on a link directory with hostile files", &replay);
 }
 
 // ------------------------------------------------------------------------------------------------
